@@ -1,2 +1,10 @@
 import Plonk.Props.C12
 #print axioms Plonk.Props.C12.placeholder_consts
+#print axioms Plonk.Props.C12.d_nonresidue
+#print axioms Plonk.Props.C12.neg_one_residue
+#print axioms Plonk.Props.C12.add_complete
+#print axioms Plonk.Props.C12.add_assoc_comm
+#print axioms Plonk.Props.C12.var_add_comps_iff
+#print axioms Plonk.Props.C12.var_add_row_iff
+#print axioms Plonk.Props.C12.var_add_row_on_curve
+#print axioms Plonk.Props.C12.ladder_is_scalar_mul
